@@ -118,7 +118,7 @@ def check_stage_grammar(events, n_instr, crashed=False):
     return problems
 
 
-def check_fields(events, expected_paths, n_mw, spy_paths=None, crashed=False):
+def check_fields(events, expected_paths, n_mw, spy_paths=None, crashed=False, no_call_paths=()):
     """Field hooks exactly once per resolved field, start before resolver, end after; middlewares
     traversed exactly once each, last listed outermost."""
     problems = []
@@ -157,8 +157,9 @@ def check_fields(events, expected_paths, n_mw, spy_paths=None, crashed=False):
         for e in events:
             if e["ev"] == "mw":
                 per.setdefault(e["path"], []).append(e["idx"])
-        want = list(range(n_mw - 1, -1, -1))
         for p in exp:
+            # a field whose arguments could not be coerced has no resolver call to pass through them
+            want = [] if p in no_call_paths else list(range(n_mw - 1, -1, -1))
             got = per.get(p, [])
             if got != want and not (crashed and len(got) <= n_mw):
                 problems.append(("middleware:traversal", "path %r saw %r expected %r" % (list(p), got, want)))
